@@ -353,8 +353,8 @@ class Values:
             nodes.setdefault(type(n), n)
         for c in zoo.ALL_CLASSES:
             if c not in nodes:
-                if c is zoo.Un:
-                    nodes[c] = zoo.Un(zoo.Leaf())
+                if c in (zoo.Un, zoo.UnPlus):
+                    nodes[c] = c(zoo.Leaf())
                 elif c is zoo.Bin:
                     nodes[c] = zoo.Bin(zoo.Leaf(), zoo.Leaf2())
                 elif c is zoo.Fix2:
